@@ -493,17 +493,25 @@ func (ctx *RenderContext) CallFunction(name string, args []interface{}) (interfa
 
 	// Check if it's a macro
 	if macro, ok := ctx.GetMacro(name); ok {
-		// Return a callable function
-		return func(w io.Writer) error {
-			macroNode, ok := macro.(*MacroNode)
-			if !ok {
-				return fmt.Errorf("'%s' is not a macro", name)
-			}
-			return macroNode.CallMacro(w, ctx, args...)
-		}, nil
+		macroNode, ok := macro.(*MacroNode)
+		if !ok {
+			return nil, fmt.Errorf("'%s' is not a macro", name)
+		}
+		return ctx.macroCallValue(macroNode, args)
 	}
 
 	return nil, fmt.Errorf("function '%s' not found", name)
+}
+
+// macroCallValue calls a macro and returns what it renders. A macro call is an
+// expression like any other: its value is the text of the body, whether it is printed,
+// filtered, concatenated, compared, stored with set or passed on as an argument
+func (ctx *RenderContext) macroCallValue(macro *MacroNode, args []interface{}) (interface{}, error) {
+	var out strings.Builder
+	if err := macro.CallMacro(&out, ctx, args...); err != nil {
+		return nil, err
+	}
+	return out.String(), nil
 }
 
 // callRangeFunction implements the range function
@@ -894,10 +902,7 @@ func (ctx *RenderContext) EvaluateExpression(node Node) (interface{}, error) {
 
 					// If the macro is a MacroNode, return a callable to render it
 					if macroNode, ok := macroObj.(*MacroNode); ok {
-						// Return a callable that can be rendered later
-						return func(w io.Writer) error {
-							return macroNode.CallMacro(w, ctx, args...)
-						}, nil
+						return ctx.macroCallValue(macroNode, args)
 					}
 				}
 			}
@@ -907,9 +912,7 @@ func (ctx *RenderContext) EvaluateExpression(node Node) (interface{}, error) {
 			if self, ok := n.moduleExpr.(*VariableNode); ok && self.name == "_self" {
 				if macro, ok := ctx.GetMacro(n.name); ok {
 					if macroNode, ok := macro.(*MacroNode); ok {
-						return func(w io.Writer) error {
-							return macroNode.CallMacro(w, ctx, args...)
-						}, nil
+						return ctx.macroCallValue(macroNode, args)
 					}
 				}
 			}
@@ -940,14 +943,11 @@ func (ctx *RenderContext) EvaluateExpression(node Node) (interface{}, error) {
 				args[i] = val
 			}
 
-			// Return a callable that can be rendered later
-			return func(w io.Writer) error {
-				macroNode, ok := macro.(*MacroNode)
-				if !ok {
-					return fmt.Errorf("'%s' is not a macro", n.name)
-				}
-				return macroNode.CallMacro(w, ctx, args...)
-			}, nil
+			macroNode, ok := macro.(*MacroNode)
+			if !ok {
+				return nil, fmt.Errorf("'%s' is not a macro", n.name)
+			}
+			return ctx.macroCallValue(macroNode, args)
 		}
 
 		// Otherwise, it's a regular function call
